@@ -206,7 +206,7 @@ func (f *frame) doCall(v *ssa.Call, st *State, reach string) {
 func (f *frame) evalSpecAtSite(src string, st *State, env map[string]Val) (term string, bound bool) {
 	defer func() {
 		if r := recover(); r != nil {
-			if s, ok := r.(string); ok && strings.HasPrefix(s, "spec: ") {
+			if s, ok := r.(string); ok && (strings.HasPrefix(s, "spec: ") || strings.HasPrefix(s, "binop ")) {
 				// the clause does not type-check at this site (a name is not in scope,
 				// or is bound to a value of another type here): it does not apply
 				term, bound = "", false
